@@ -23,6 +23,9 @@ _ALLOWED_FUNCTIONS: dict[str, Callable[..., sympy.Expr]] = {
     "min": sympy.Min,
     "Min": sympy.Min,
     "floor": sympy.floor,
+    "ceiling": sympy.ceiling,
+    "Abs": sympy.Abs,
+    "sign": sympy.sign,
     "sqrt": sympy.sqrt,
     "mod": sympy.Mod,
     "Mod": sympy.Mod,
@@ -112,7 +115,7 @@ class _ExpressionParser:
 
     Supports:
         - Basic arithmetic: +, -, *, /, //, %, **
-        - Functions: max(), min(), floor(), sqrt()
+        - Functions: max(), min(), floor(), ceiling(), Abs(), sign(), sqrt(), mod()
         - Symbolic variables (identifiers)
         - Integer literals
         - Parentheses for grouping
@@ -290,7 +293,7 @@ def parse_symbolic_expression(value: str) -> sympy.Expr:
 
     Supports:
         - Basic arithmetic: +, -, *, /, //, %, **
-        - Functions: max(), min(), floor(), sqrt()
+        - Functions: max(), min(), floor(), ceiling(), Abs(), sign(), sqrt(), mod()
         - Symbolic variables (identifiers)
         - Integer literals
         - Parentheses for grouping
